@@ -32,29 +32,44 @@ def modules_of(text):
     return [it.name for it in items if it.kind == 'mod']
 
 
+SCHEMA_KINDS = ('schema { query: Query mutation: Mut subscription: Sub }\ntype Query { x(a: Int, s: String): Int }\n'
+                'type Mut { m(s: String): Int }\ntype Sub { w(a: Int): Int }\n')
+
+
 def colliding_operations(rt):
-    """two operations whose names coincide after normalization (`mountain_height`, `MountainHeight`), with different variables:
-    whichever one a struct name / explicit name selects, OPERATION_NAME and Variables must belong to the same operation.
-    Returns a description of the inconsistency or None."""
-    doc = 'query mountain_height($a: Int) { x(a: $a) }\nquery MountainHeight($s: String) { x(s: $s) }\n'
-    own = {'mountain_height': ['a'], 'MountainHeight': ['s']}
-    for mode in ('derive', 'cli'):
-        for name in ('MountainHeight', 'mountain_height'):
-            for nz in ('rust', 'none'):
-                opts = {'mode': mode, 'normalization': nz, 'operation_name': name, 'struct_ident': name}
-                r = rt.gen(SCHEMA, doc, opts)
-                if r['status'] != 'ok':
-                    continue
-                for it in native.parse_generated(r['text']):
-                    if it.kind != 'mod':
+    """module consistency, sampled natively: whichever operation a struct name / explicit name selects, OPERATION_NAME and
+    Variables of a module must belong to the same operation.  Documents: two operations whose names coincide after
+    normalization (`mountain_height`, `MountainHeight`), and operations of different kinds interleaved.
+    Returns a description of the first inconsistency or None."""
+    docs = [
+        (SCHEMA, 'query mountain_height($a: Int) { x(a: $a) }\nquery MountainHeight($s: String) { x(s: $s) }\n',
+         {'mountain_height': ['a'], 'MountainHeight': ['s']}, ('MountainHeight', 'mountain_height')),
+        (SCHEMA_KINDS, 'query ThingName($id: Int) { x(a: $id) }\nmutation RenameThing($s: String) { m(s: $s) }\nsubscription Watch($w: Int) { w(a: $w) }\n'
+                       'query Other($o: String) { x(s: $o) }\n',
+         {'ThingName': ['id'], 'RenameThing': ['s'], 'Watch': ['w'], 'Other': ['o']}, ('RenameThing', 'Watch', 'Other', None)),
+    ]
+    for schema, doc, own, names in docs:
+        for mode in ('derive', 'cli'):
+            for name in names:
+                for nz in ('rust', 'none'):
+                    if name is None and mode == 'derive':
                         continue
-                    consts = {x.name: ''.join(x.rhs).strip('"') for x in it.items if x.kind == 'const'}
-                    vs = native.find_item(it.items, 'Variables', 'struct')
-                    fields = [f[0] for f in vs.fields] if vs else []
-                    opn = consts.get('OPERATION_NAME')
-                    if opn in own and fields != own[opn]:
-                        return (f'{mode} mode, normalization {nz}, requested `{name}`: module `{it.name}` sends operationName {opn!r} but its Variables has the fields {fields} '
-                                f'(those of the other operation) for the document `{doc.strip()}`')
+                    opts = {'mode': mode, 'normalization': nz}
+                    if name is not None:
+                        opts.update(operation_name=name, struct_ident=name)
+                    r = rt.gen(schema, doc, opts)
+                    if r['status'] != 'ok':
+                        continue
+                    for it in native.parse_generated(r['text']):
+                        if it.kind != 'mod':
+                            continue
+                        consts = {x.name: ''.join(x.rhs).strip('"') for x in it.items if x.kind == 'const'}
+                        vs = native.find_item(it.items, 'Variables', 'struct')
+                        fields = [f[0] for f in vs.fields] if vs else []
+                        opn = consts.get('OPERATION_NAME')
+                        if opn in own and fields != own[opn]:
+                            return (f'{mode} mode, normalization {nz}, requested `{name}`: module `{it.name}` sends operationName {opn!r} but its Variables has the fields {fields} '
+                                    f'(expected {own[opn]}) for the document `{doc.strip()}`')
     return None
 
 
@@ -170,7 +185,7 @@ def main():
     clash = colliding_operations(rt)
     replayed += 1
     if clash and not any(v[0].startswith('operation-selection') for v in out.violations):
-        out.violation('native:colliding-names', clash, dict(kind='collision'))
+        out.violation('native:module-consistency', clash, dict(kind='collision'))
     # derive mode on a struct name that matches nothing: must fail and name the operations
     r = rt.gen(SCHEMA, DOC, {'mode': 'derive', 'operation_name': 'Third', 'struct_ident': 'Third'})
     replayed += 1
